@@ -98,15 +98,15 @@ def confirm(src, name):
         drop(d)
 
 
-def framework_copy(vdir):
+def framework_copy(vdir, rev='HEAD'):
     """A worktree of /verif's current HEAD, built."""
     if not os.path.isdir(vdir):
-        rc, out = sh(['git', '-C', VERIF, 'worktree', 'add', '-q', '--detach', vdir, 'HEAD'])
+        rc, out = sh(['git', '-C', VERIF, 'worktree', 'add', '-q', '--detach', vdir, rev])
         if rc:
             raise SystemExit(out)
     else:
         sh(['git', 'checkout', '-q', '--detach', subprocess.check_output(
-            ['git', '-C', VERIF, 'rev-parse', 'HEAD'], text=True).strip()], cwd=vdir)
+            ['git', '-C', VERIF, 'rev-parse', rev], text=True).strip()], cwd=vdir)
     rc, out = sh([os.path.join(vdir, 'check'), '--setup'], cwd=vdir, timeout=3600)
     if rc:
         raise SystemExit('setup failed in %s: %s' % (vdir, out[-500:]))
@@ -131,6 +131,7 @@ def check(seed_dir, tier, vdir):
                'caught': caught, 'violation_lines': viol[:5],
                'with_failing_input': any('no-failing-input-found' not in v for v in viol),
                'tail': out.splitlines()[-6:]}
+        res['framework_rev'] = subprocess.check_output(['git', 'rev-parse', '--short', 'HEAD'], cwd=vdir, text=True).strip()
         json.dump(res, open(os.path.join(seed_dir, 'result_%s.json' % tier), 'w'), indent=1)
         print('%s %s: %s (exit %d) %s' % (res['seed'], pid, 'CAUGHT' if caught else 'MISSED', rc, viol[:1]))
         return 0 if caught else 1
@@ -146,9 +147,10 @@ if __name__ == '__main__':
     ap.add_argument('--tier', default='quick')
     ap.add_argument('--verif', default='/root/wt/vseed')
     ap.add_argument('--no-setup', action='store_true')
+    ap.add_argument('--rev', default='HEAD', help='framework revision to test (e.g. a builder branch w-c16)')
     a = ap.parse_args()
     if a.cmd == 'confirm':
         sys.exit(confirm(a.path, a.name))
     if not a.no_setup:
-        framework_copy(a.verif)
+        framework_copy(a.verif, a.rev)
     sys.exit(check(a.path, a.tier, a.verif))
